@@ -167,8 +167,28 @@ def check_plan(ctx: Ctx, case: dict, use_target: bool = False) -> None:
         want = sum(counts.values())
         require(v == want, lambda: f"error count {v}, documented per-rule "
                 f"count {want} = {counts} (setting={list(sett)})")
+    bye_checked = False
+    if counts is None and not oracle_ttp.inconsistencies(plan) \
+            and not oracle_ttp.self_play(plan) \
+            and not oracle_ttp.is_complete(plan):
+        # consistent plan with idle days: the documented count is defined
+        # when the separation limits are vacuous - same streak limits,
+        # separation 0..maximum, same plan
+        st2 = (*sett[:4], 0, rounds * n - 1)
+        inst2 = sut("ttp.Instance()", gen_ttp.build_instance,
+                    {**case, "st": list(st2)})
+        from moptipyapps.ttp.errors import Errors as _Errors
+        v3 = int(sut("Errors.evaluate", _Errors(inst2).evaluate,
+                     gen_ttp.build_plan(inst2, plan)))
+        c3 = oracle_ttp.rule_counts_with_byes(plan, n, rounds, st2)
+        require(v3 == sum(c3.values()), lambda: f"consistent plan with idle "
+                f"days: error count {v3}, documented count {c3} (setting "
+                f"{list(st2)}, plan {plan})")
+        bye_checked = True
     labels = [f"n={n}", f"rounds={rounds}", f"gen={case.get('cls', '?')}",
               f"plan:{cls}", _ratio_label(v, ub)]
+    if bye_checked:
+        labels.append("bye_count_checked")
     if counts is not None:
         labels.extend(f"rule:{r}" for r, c in counts.items() if c)
     if list(sett) == gen_ttp.bundled_setting(n, rounds):
